@@ -5,6 +5,9 @@ import (
 	"encoding/json"
 	"fmt"
 	"os"
+	"os/exec"
+	"path/filepath"
+	"strings"
 
 	"verifh/lib"
 	"verifh/luagen"
@@ -19,7 +22,52 @@ type input struct {
 	Mode string `json:"mode"`
 }
 
+// shrink <seed> <idx>: minimise a failing generated program with coqc as the oracle (development aid,
+// also used to produce small replays).
+func shrinkCmd(seed uint64, idx int) {
+	r := lib.NewRand(seed*1000003 + uint64(idx))
+	g := luagen.NewGen(r, luagen.CoreFeatures())
+	prog := g.Program()
+	dir, _ := os.MkdirTemp("", "c01shr")
+	defer os.RemoveAll(dir)
+	fails := func(p []luagen.Stmt) bool {
+		src := luagen.PrintLua(p)
+		out := luagen.Run(src, nil)
+		if out.GoFail != "" {
+			return false
+		}
+		v := header + "\nOpen Scope Z_scope.\nDefinition cc : case := CProg " + luagen.CoqBlock(p) + " " + out.Coq() + ".\n" +
+			"Definition rr := Eval vm_compute in (check_spec cc).\nPrint rr.\n"
+		os.WriteFile(filepath.Join(dir, "cand.v"), []byte(v), 0o644)
+		cmd := exec.Command("timeout", "120", "coqc", "-R", "/verif/coq", "GL", "cand.v")
+		cmd.Dir = dir
+		o, _ := cmd.CombinedOutput()
+		if !strings.Contains(string(o), "rr = ") {
+			fmt.Println("oracle error:", string(o)[:min(len(o), 600)])
+		}
+		return strings.Contains(string(o), "rr = false")
+	}
+	if !fails(prog) {
+		fmt.Println("does not fail")
+		return
+	}
+	small := luagen.Shrink(prog, fails, 400)
+	src := luagen.PrintLua(small)
+	fmt.Println(src)
+	out := luagen.Run(src, nil)
+	b, _ := json.Marshal(out.Summary())
+	fmt.Println("OBSERVED:", string(b))
+}
+
 func main() {
+	if len(os.Args) > 3 && os.Args[1] == "shrink" {
+		var seed uint64
+		var idx int
+		fmt.Sscan(os.Args[2], &seed)
+		fmt.Sscan(os.Args[3], &idx)
+		shrinkCmd(seed, idx)
+		return
+	}
 	a := lib.ParseArgs()
 	w, err := lib.NewWriter(a.Out, "C01", a.Tier, a.Seed, header, "case", 40)
 	if err != nil {
